@@ -13,8 +13,8 @@ def classify(case_line):
 CFG = dict(
     imports=["From Verif.C03 Require Import Model Spec.", "Open Scope N_scope."],
     checker="check_case",
-    n=dict(quick=400, thorough=12000),
-    shard=100,
+    n=dict(quick=320, thorough=12000),
+    shard=40,
     classify=classify,
     rule="histories (10-45 ops) on the real PolicyResolver+PolicySorter over 3-6 policy keys (same name in different "
          "namespaces/kinds), 4 tier names (+ a tier that never exists, + empty tier), 2-4 local endpoints (WEPs and a HEP): "
@@ -41,11 +41,16 @@ def run(ctx):
 
 MANIFEST = dict(
     category="proof",
-    text="Theorems over an executable model of PolicyResolver + PolicySorter (btrees as sorted lists, pending/dirty sets, "
-         "match multidicts) for all histories of match start/stop, policy/tier/endpoint updates and deletes and flushes: "
-         "the last update emitted for every local endpoint equals the specification's expected_tiers (exact set, tier "
-         "order, policy order, direction split, only matching policies), plus a correspondence run of model and "
-         "spec oracle against the real Go code on generated histories.",
+    text="Executable model of PolicyResolver + PolicySorter (btrees as sorted lists, pending/dirty sets, match "
+         "multidicts; both variants of OnPolicyMatchStopped and of the tie-break) and of tierInfoToProtoTierInfo. "
+         "Theorems: TierLess / PolKVLess are strict total orders on distinct keys and equal the specification's "
+         "orders; the btree model behaves as a finite set with a unique sorted enumeration; after EVERY history "
+         "the match state is the fold of the history, nothing is emitted before in-sync, only policies matching "
+         "that endpoint are sent; the proto split equals the specification's class/direction split for every "
+         "input; the specification function has the listed properties (exact set, grouping, tier order, policy "
+         "order); refutation witnesses for the stale pending entry and for the joined-string tie-break. The "
+         "refinement 'every emitted list = expected_tiers' is not proved; it is checked by the specification "
+         "oracle on the real code's outputs on every run (view-based: last update per endpoint).",
     note="Trusted: Coq kernel; hand-written model tied to the code only by the correspondence run; Go driver; "
          "upstream match callbacks as characterised by C07.",
 )
